@@ -28,10 +28,31 @@ def tree_hash():
     return h.hexdigest()[:16]
 
 
+def regenerate():
+    """Run the go/ast extractor on /repo's working tree: rewrites lean/NjectGen/*.lean.
+    Returns (ok, log, differs_from_committed)."""
+    xd = os.path.join(VERIF, 'extract')
+    h = hashlib.sha256()
+    for f in sorted(glob.glob(os.path.join(xd, '*.go'))):
+        h.update(open(f, 'rb').read())
+    bindir = os.path.join(CACHE, 'bin'); os.makedirs(bindir, exist_ok=True)
+    xb = os.path.join(bindir, 'extract-' + h.hexdigest()[:12])
+    if not os.path.exists(xb):
+        rc, log = sh(['go', 'build', '-o', xb, '.'], cwd=xd, env=GOENV, timeout=600)
+        if rc != 0:
+            return False, log, None
+    rc, log = sh([xb, REPO, os.path.join(LEAN, 'NjectGen')], timeout=120)
+    if rc != 0:
+        return False, log, None
+    rc2, _ = sh(['git', 'diff', '--quiet', '--', 'lean/NjectGen'], cwd=VERIF)
+    return True, log.strip(), rc2 != 0
+
+
 class Ctx:
     def __init__(self, prop, tier, seed):
         self.prop, self.tier, self.seed = prop, tier, seed
         self.t0 = time.time()
+        self.regen = regenerate()
         self.hash = tree_hash()
         self.dir = os.path.join(CACHE, '%s-%d-%s' % (self.hash, seed, tier))
         os.makedirs(self.dir, exist_ok=True)
@@ -137,6 +158,10 @@ def proof_obligations(ctx, prop):
     """Build + audit the theorems registered for `prop`. Returns (obligations, discharged, details)."""
     reg = load_theorems().get(prop, [])
     names = [t['name'] for t in reg]
+    if not ctx.regen[0]:
+        ctx.violations.append(('extractor failed on /repo (translator tie broken)', write_replay(ctx, 'extract_failed.txt', ctx.regen[1][-4000:]), False))
+    ctx.cov['translator'] = {'status': 'regenerated' if ctx.regen[0] else 'failed', 'log': ctx.regen[1][-200:] if ctx.regen[1] else '',
+                             'differs_from_committed_snapshot': ctx.regen[2]}
     ok, log = lean_build()
     details = []
     if not ok:
